@@ -48,10 +48,10 @@ class TablerowNode(Node):
     def __str__(self) -> str:
         assert isinstance(self.token, TagToken)
         return (
-            f"{{%{self.token.wc[0]} tablerowloop "
+            f"{{%{self.token.wc[0]} tablerow "
             f"{self.expression} {self.token.wc[1]}%}}"
             f"{self.block}"
-            f"{{%{self.end_tag_token.wc[0]} endtablerowloop "
+            f"{{%{self.end_tag_token.wc[0]} endtablerow "
             f"{self.end_tag_token.wc[1]}%}}"
         )
 
